@@ -171,6 +171,18 @@ CHECKS.update({
    note="Enumeration is exhaustive per generated case (counts by a fault-free dry run; exhaustive=false if any point was missed); in-process faults fail a primitive before it acts, partial effects only through strace; strace when=N counts per thread, each injection confirmed on an artifact path; operation kind inferred from the error path.", ref="3/C19"),
 })
 
+CHECKS.update({
+ "C10": dict(engine=E3, level="exploration", technique="runtime monitoring: artifacts of the real compiler loaded into the REAL isograph-react runtime (libs/isograph-react/src/core/*.ts) in node 22; conforming responses generated from the operation text + schema; real normalizeData then real readButDoNotEvaluate through every non-loadable resolver; oracle = the runtime's own DoneReading{MissingData} logger event / thrown promise / exception",
+   text="Held on N generated responses over M programs (client field chains with arguments, @component readers, refinements, pointers, loadable boundaries, exposed mutation fields; checked-in projects): after normalizing a conforming response every reachable reader found every server field it reads.",
+   note="Trusted: response generator (walks operation text against the schema), loader rewrite ComponentReaderArtifact->EagerReaderArtifact so that readData recurses; suspense/promise paths not driven (no React).", ref="3/C10"),
+ "C12": dict(engine=E3, level="exploration", technique="runtime monitoring: static key uniqueness/legality over generated operations + the key the REAL runtime looks up (recording Proxy response during the real normalizeData) vs the alias the compiler printed + a micro-workload feeding adversarial argument lists to the runtime key function (synthetic normalization AST node) and to the compiler",
+   text="Held on N operations / K compared keys except the listed known findings (strings that differ only in non-word characters or imitate the key structure collide; integers outside the JS safe range).",
+   note="Trusted: canonical argument comparison in pylib/e3_oracles.py; the synthetic AST nodes are built independently of the compiler.", ref="3/C12"),
+ "C25": dict(engine=E3, level="exploration", technique="runtime monitoring: static composition of usedRefetchQueries/refetchQueryIndex over the artifact model + dynamic leg in node 22: real normalizeData + readButDoNotEvaluate, then every refetch function the readers returned is INVOKED with a recording network function; operation sent, variables and index compared with the refetch artifact generated for that selection at that position",
+   text="Held on N programs in which one client field with refetchable selections (__refetch, exposed mutation fields, @loadable children, pointers) is reused by several parents and entrypoints at different positions: every composed index was in range and selected the refetch query of that field at that position; one listed known finding about refetch variables.",
+   note="Trusted: symbolic substitution of arguments along reader chains in pylib/rt_common.py; recording network function.", ref="3/C25"),
+})
+
 import subprocess
 HOOK_COMMITS = [l.split()[0] for l in subprocess.run(["git", "-C", "/repo", "log", "--format=%h %s"], capture_output=True, text=True).stdout.splitlines() if "verif hook" in l]
 
